@@ -359,6 +359,25 @@ pub fn run_case(cx: &mut Ctx) {
             }
         }
     }
+    if bulk {
+        // drain: unregister (almost) everything that is registered, on both registries; the names stay pinned
+        // to the help text and label names they were registered with
+        let mut drained = 0;
+        for (ti, t) in templates.iter().enumerate() {
+            if model.expect_unregister(t) && ti % 16 != 0 {
+                let oa = outcome(&catch(|| a.unregister(t.boxed())));
+                let ob = outcome(&catch(|| b.unregister(t.boxed())));
+                log.push(Json::Str(format!("drain unregister(T{}) -> {} / twin {}", ti, oa, ob)));
+                if oa != "Ok" || ob != "Ok" {
+                    cx.violation("unregister-outcome-wrong", "drain", format!("unregister(T{}: {}) of a registered collector -> {} / twin {}", ti, t.describe(), oa, ob), detail(&log, &templates));
+                    return;
+                }
+                model.apply_unregister(t);
+                drained += 1;
+            }
+        }
+        cx.part.count("bulk_drained_collectors", drained);
+    }
     // final probe: one registration attempt of every template on both registries
     for (ti, t) in templates.iter().enumerate() {
         let oa = outcome(&catch(|| a.register(t.boxed())));
@@ -366,6 +385,16 @@ pub fn run_case(cx: &mut Ctx) {
         log.push(Json::Str(format!("probe register(T{}) -> {} / twin {}", ti, oa, ob)));
         cx.part.count("final_probes", 1);
         // error *kinds* may differ only when both an equal descriptor and a dimension conflict exist
+        // ... and against the model (what was ever registered under a name still binds it)
+        let exp = model.expect_register(t);
+        let ok = oa == "Ok";
+        if (exp == Expect::Ok && !ok) || ((exp == Expect::AnyError || exp == Expect::AlreadyReg) && ok) {
+            cx.violation(if ok { "conflicting-collector-admitted" } else { "admissible-collector-refused" }, "final-probe", format!("register(T{}: {}) -> {} (expected {:?})", ti, t.describe(), oa, exp), detail(&log, &templates));
+            return;
+        }
+        if ok {
+            model.apply_register(t);
+        }
         if (oa == "Ok") != (ob == "Ok") {
             cx.violation("failed-call-left-a-trace", "final-probe", format!("register(T{}: {}) -> {} on the registry that saw failed calls, {} on its twin", ti, t.describe(), oa, ob), detail(&log, &templates));
             return;
